@@ -124,8 +124,22 @@ def run(ck):
             ok, seq = header_line_ok(f)
             ck.ob("C02-R3", "header-line:%s" % label, ok, f.loc, f, "H::Name, ': ', value, CRLF" if ok else "sequence %s" % seq[:8])
     hs = lib.single(prog, H + "Private::HeadersStep::apply")
-    colon = [b for b in hs.blocks.values() if b.term and b.term.get("k") == "while" and b.term.get("rconst") == "c:58" and b.term.get("cmp") == "!="]
-    spaces = [b for b in hs.blocks.values() if b.term and b.term.get("k") == "while" and b.term.get("rconst") == "c:32" and b.term.get("cmp") == "=="]
+    # the splitter compares the byte under the cursor with ':' (scan while different) and with ' ' (skip while equal); the comparisons may
+    # sit in loop conditions of the step itself or in predicates / helpers it was split into
+    def cur_cmps(fn_):
+        out = []
+        for g in lib.region(prog, fn_, within=lambda g: g.file == fn_.file and g.base.startswith(H + "Private::")):
+            for bl in g.blocks.values():
+                t = bl.term
+                if t and t.get("cmp") in ("==", "!=") and isinstance(t.get("rconst"), str) and "c:Pistache::StreamCursor::current" in (t.get("leafrefs") or t.get("refs") or []):
+                    out.append((t["cmp"], t["rconst"]))
+            for e in g.events("cmp"):
+                if e.get("op") in ("==", "!=") and isinstance(e.get("rconst"), str) and (e.get("lhs") or {}).get("t", "").endswith(".current()"):
+                    out.append((e["op"], e["rconst"]))
+        return out
+    cc = cur_cmps(hs)
+    colon = [x for x in cc if x[1] == "c:58"]
+    spaces = [x for x in cc if x[1] == "c:32"]
     ck.ob("C02-R3", "reader:HeadersStep-splits-on-colon-space", bool(colon) and bool(spaces), hs.loc, hs, "name up to ':', spaces skipped, value up to CRLF")
     wc = lib.single(prog, CL + "writeCookies")
     seq = [p_[1] for p_ in stream_sequence(wc) if p_[0] == "lit"]
@@ -151,7 +165,9 @@ def run(ck):
     ok = any(strip_tmpl(e.get("callee") or "").endswith("::writeHeader") and "ContentLength" in (e.get("t") or "") for e in wr.events("call"))
     ck.ob("C02-R4", "writer:client-ContentLength", ok, wr.loc, wr, "writeHeader<Http::Header::ContentLength>")
     cp = lib.single(prog, H + "Private::BodyStep::Chunk::parse")
-    rd16 = [e for e in cp.calls(lambda e: (e.get("callee") or "") in ("strtol", "std::strtol")) if e["args"][2].get("const") == 16]
+    rd16 = [e for g in lib.region(prog, cp, within=lambda g: g.cls and g.cls == cp.cls)
+            for e in g.calls(lambda e: (e.get("callee") or "") in ("strtol", "std::strtol", "strtoul", "std::strtoul", "strtoll", "std::strtoll", "strtoull", "std::strtoull"))
+            if len(e.get("args", [])) > 2 and e["args"][2].get("const") == 16]
     wrt = lib.single(prog, H + "ResponseStream::write")
     hexw = any(any((a.get("t") or "").endswith("std::hex") or (a.get("t") or "") == "std::hex" for a in e.get("args", [])) for e in wrt.events("call"))
     ck.ob("C02-R4", "chunk-size:hex-vs-base16", bool(rd16) and hexw, cp.loc, cp, "written with std::hex, read with strtol(..., 16)")
